@@ -249,7 +249,7 @@ def callback_layer(kind, ex, base):
 PHASE = {"Launch": "initial-launch", "Handout": "hand-out", "Collect": "collect", "Refresh": "refresh", "MCheck": "main-wait",
          "WCheck": "worker-wait", "WDone": "worker-done", "WNotify": "worker-notify", "MNotify": "main-notify", "MUnlock": "main-unlock",
          "ModelBegin": "model-entry", "ModelEnd": "model-exit", "Final": "final-grid", "End": "return", "Flush": "flush",
-         "Joined": "join", "SeqNext": "seq-next", "SeqStore": "seq-store", "Checkout": "check-out", "Hang": "hang", "Threw": "exception"}
+         "Joined": "join", "SeqNext": "seq-next", "SeqStore": "seq-store", "Checkout": "check-out", "Hang": "hang", "Threw": "exception", "Crashed": "crash"}
 CLAUSE = {"CBudgetOK": "budget-exceeded", "CAtMostOnce": "called-twice", "CNoSameThreadConcurrent": "same-thread-id-concurrent",
           "CValueAtItsPoint": "value-at-wrong-point", "CSurrogateReproduces": "surrogate-not-reproducing", "LCAtMostOnce": "called-twice", "LCNoSameThreadConcurrent": "same-thread-id-concurrent",
           "LCExactlyOnceValueAtItsPoint": "not-exactly-once-or-value-at-wrong-point", "CallbackIllFormed": "callback-ill-formed"}
@@ -290,8 +290,12 @@ def run_driver(drv, lines, base, hang_ms=HANG_MS):
         # hang (97), runaway (98), crash or outer timeout: the last recorded execution is the culprit
         n = len(ex)
         if n == 0:
-            raise vf.FrameworkError("driver produced no trace (rc=%s): %s\n%s" % (p.returncode, sp, p.stderr[-2000:]))
-        if p.returncode not in (97, 98) and not (ex[-1] and ex[-1][-1]["e"] in ("Hang", "Runaway")):
+            if getattr(p, "timed_out", False) and p.returncode == 124 and part > 3:
+                raise vf.FrameworkError("driver produced no trace (rc=%s): %s\n%s" % (p.returncode, sp, p.stderr[-2000:]))
+            # the process died before anything was written: the first scenario is the culprit
+            ex = [[{"e": "Reset", "mode": todo[0].split()[0].split("=")[1], "nw": 1, "nt": 1, "ns": 1, "budget": 0, "batch": 1, "par": True, "init": []}]]
+            n = 1
+        if p.returncode not in (97, 98) and not (ex[-1] and ex[-1][-1]["e"] in ("Hang", "Runaway", "Crashed")):
             ex[-1].append({"e": "Crashed", "rc": p.returncode})
         out += list(zip(todo[:n], ex))
         todo = todo[n:]
@@ -358,6 +362,13 @@ def real_runs(ctx, drv, wd, n_par, n_seq, n_ln, chunk, stats, rerun=True):
             "mode=par fam=global_cc dims=2 depth=1 budget=3 jobs=5 batch=1 fmodel=1 seed=%d" % (ctx.seed + 14),
             "mode=par fam=localp dims=2 depth=1 order=1 limit=2 budget=-1 jobs=3 batch=2 fmodel=2 tolexp=3 sched=2 lat=2 seed=%d" % (ctx.seed + 15),
             "mode=seq fam=localp dims=2 depth=1 order=1 limit=2 budget=4 jobs=2 batch=3 fmodel=0 seed=%d" % (ctx.seed + 16)] + cons
+    # many workers + stable refinement: children are computed before their parents, the grid has to keep
+    # finished samples aside (this is where re-proposed samples showed up, commit 512514e)
+    for k in range(max(24, n_par // 12) if n_par >= 60 else 6):
+        fam, lim = (("wavelet", 2) if k % 4 == 3 else ("localp", 3))
+        cons.append("mode=par fam=%s dims=2 jobs=%d batch=%d seed=%d lat=%d sched=%d guess=0 preload=0 order=%d depth=1 limit=%d crit=4 out=-1 fmodel=0 tolexp=3 budget=%d"
+                    % (fam, rnd.choice([6, 8]), rnd.choice([1, 2]), rnd.randrange(1, 2 ** 31), rnd.choice([0, 1, 2, 3, 4]), rnd.choice([0, 1, 2, 3]),
+                       rnd.choice([1, 2]), lim, rnd.randrange(30, 60)))
     rnd.shuffle(cons)
     lns = [scen_line(ln_scenario(rnd)) for _ in range(n_ln)]
     jobs = []
@@ -581,13 +592,15 @@ MUTANTS = [
      "    if (!dynamic_values->data.empty() && !new_points.empty()){", "    if (false){"),
     ("refresh forgets the running jobs (same job handed out twice)", "Addons/tsgCandidateManager.hpp",
      "            if (i < num_candidates) status[sorted[i]] = running;", "            if (i < num_candidates) status[sorted[i]] = free;"),
-    ("worker notifies before it sets the flag (lost wake-up)", "Addons/tsgConstructSurrogate.hpp",
-     """                { // must guarantee sync between work_flag and count_done, use a lock
+    ("worker notifies before it sets the flag and not afterwards (lost wake-up)", "Addons/tsgConstructSurrogate.hpp",
+     ["""                { // must guarantee sync between work_flag and count_done, use a lock
                     std::lock_guard<std::mutex> lock(access_count_done);""",
-     """                until_someone_done.notify_one();
-                std::this_thread::yield();
+      "                until_someone_done.notify_one(); // just finished some work, notify the main thread"],
+     ["""                until_someone_done.notify_one();
+                TSG_VERIF_SCHED("pc:worker_before_done");
                 { // must guarantee sync between work_flag and count_done, use a lock
-                    std::lock_guard<std::mutex> lock(access_count_done);"""),
+                    std::lock_guard<std::mutex> lock(access_count_done);""",
+      "                // (notification moved before the critical section)"]),
     ("model called with thread id 0 by every worker", "Addons/tsgConstructSurrogate.hpp",
      "model(x[thread_id], y[thread_id], thread_id); // does the model evaluations", "model(x[thread_id], y[thread_id], 0); // does the model evaluations"),
     ("collect pairs the job with another worker's result buffer", "Addons/tsgConstructSurrogate.hpp",
@@ -609,11 +622,13 @@ def selftest(ctx):
         shutil.rmtree(root, ignore_errors=True)
         os.makedirs(root)
         vf.sh("git -C /repo archive HEAD | tar -x -C %s" % root, check=True, timeout=300)
-        # the scratch copy carries /repo's uncommitted state of the mutated file as well
-        src = open(os.path.join("/repo", rel)).read()
-        if src.count(old) != 1:
-            raise vf.FrameworkError("mutant %d does not apply" % mi)
-        open(os.path.join(root, rel), "w").write(src.replace(old, new))
+        src = open(os.path.join(root, rel)).read()
+        olds, news = (old, new) if isinstance(old, list) else ([old], [new])
+        for o, nw in zip(olds, news):
+            if src.count(o) != 1:
+                raise vf.FrameworkError("mutant %d does not apply" % mi)
+            src = src.replace(o, nw)
+        open(os.path.join(root, rel), "w").write(src)
         os.environ["VERIF_REPO"] = root
         os.environ["VERIF_BUILD_ROOT"] = os.path.join(root, "build")
         try:
